@@ -114,14 +114,18 @@ macro_rules! sized {
         #[kani::stub(std::alloc::alloc, alloc_stub)]
         #[kani::stub(alloc::alloc::dealloc_nonnull, dealloc_stub)]
         fn $a() {
-            sized_a::<$t>($mk)
+            crate::ghost::arm();
+            sized_a::<$t>($mk);
+            kani::cover!(true, "end of harness reached");
         }
         #[kani::proof]
         #[kani::unwind(3)]
         #[kani::stub(std::alloc::alloc, alloc_stub)]
         #[kani::stub(alloc::alloc::dealloc_nonnull, dealloc_stub)]
         fn $b() {
-            sized_b::<$t>($mk)
+            crate::ghost::arm();
+            sized_b::<$t>($mk);
+            kani::cover!(true, "end of harness reached");
         }
     };
 }
@@ -254,14 +258,18 @@ macro_rules! hs {
         #[kani::stub(std::alloc::alloc, alloc_stub)]
         #[kani::stub(alloc::alloc::dealloc_nonnull, dealloc_stub)]
         fn $a() {
-            hs_a::<$h, $t, $n>($hv, [$tv; $n])
+            crate::ghost::arm();
+            hs_a::<$h, $t, $n>($hv, [$tv; $n]);
+            kani::cover!(true, "end of harness reached");
         }
         #[kani::proof]
         #[kani::unwind(6)]
         #[kani::stub(std::alloc::alloc, alloc_stub)]
         #[kani::stub(alloc::alloc::dealloc_nonnull, dealloc_stub)]
         fn $b() {
-            hs_b::<$h, $t, $n>($hv, [$tv; $n])
+            crate::ghost::arm();
+            hs_b::<$h, $t, $n>($hv, [$tv; $n]);
+            kani::cover!(true, "end of harness reached");
         }
     };
 }
@@ -283,6 +291,7 @@ hs!(t_hs_a_u64_u8_n0, t_hs_b_u64_u8_n0, u64, u8, 0, kani::any(), kani::any());
 #[kani::stub(std::alloc::alloc, alloc_stub)]
 #[kani::stub(alloc::alloc::dealloc_nonnull, dealloc_stub)]
 fn q_str_and_collect() {
+    crate::ghost::arm();
     let a: Arc<str> = Arc::from("abc");
     let b = block_nr(0);
     assert!(b.size == 16 && b.align == 8 && a.len() == 3);
@@ -308,6 +317,7 @@ fn q_str_and_collect() {
 #[kani::stub(std::alloc::alloc, alloc_stub)]
 #[kani::stub(alloc::alloc::dealloc_nonnull, dealloc_stub)]
 fn q_default_and_unsize_slice() {
+    crate::ghost::arm();
     let a: Arc<u32> = Default::default();
     check_sized(&a, 0);
     drop(a);
@@ -360,6 +370,7 @@ macro_rules! lo {
         #[kani::stub(alloc::alloc::dealloc_nonnull, dealloc_stub)]
         #[kani::stub(std::alloc::handle_alloc_error, hae_check_stub)]
         fn $name() {
+            crate::ghost::arm();
             layout_only::<$h, $t>(|len| {
                 let u = UniqueArc::<HeaderSlice<$h, [MaybeUninit<$t>]>>::from_header_and_uninit_slice($hv, len);
                 forget(u);
@@ -379,6 +390,7 @@ lo!(r2p_layout_only_u64_s17a16, u64, S17a16, 0u64);
 #[kani::stub(alloc::alloc::dealloc_nonnull, dealloc_stub)]
 #[kani::stub(std::alloc::handle_alloc_error, hae_check_stub)]
 fn qp_layout_only_new_uninit_slice() {
+    crate::ghost::arm();
     layout_only::<(), u64>(|len| {
         let a = Arc::<[MaybeUninit<u64>]>::new_uninit_slice(len);
         forget(a);
